@@ -20,7 +20,7 @@ run b_f64_fetch_update C01 C11 C02 C12
 # independently written refactorings (sub-agents): every check against every patch
 if [ "$1" = "--independent" ]; then
   ALL="C01 C02 C03 C04 C05 C06 C07 C08 C09 C10 C11 C12 C13 C14 C15 C16 C17 C18 C19 C20"
-  for f in benign/independent/B*-[123].diff; do
+  for f in benign/independent/B*-[123].diff benign/independent2/B*-[123].diff; do
     r=$(./tools/runbenign.sh $f $ALL 2>&1); echo "$r" | sed "s/^/$(basename $f .diff): /"; echo "$r" | grep -q "exit=[1-9]" && fail=1
   done
 fi
